@@ -14,8 +14,16 @@ def replay(spec):
     species = ["X", "Y", "Z"]
     meas = ["Y", "X", "Z"][:Mm]
 
+    with_rule = bool(spec.get("rule"))
+
     def mk():
-        return Model(species=species, reactions=[(["X"], ["Y"], "massaction", {"k": "k1"}), (["Y"], ["Z"], "massaction", {"k": "k2"})],
+        if with_rule:
+            # a rule, and a parameter condition that matters: cnd scales the second rate through the general rate law
+            return Model(species=species + ["W"],
+                         reactions=[(["X"], ["Y"], "massaction", {"k": "k1"}), (["Y"], ["Z"], "general", {"rate": "k2*cnd*Y"})],
+                         parameters=[("k1", 0.7), ("k2", 0.3), ("cnd", 1.0)], rules=[("assignment", {"equation": "W = X + cnd*Y"}, "repeated")],
+                         initial_condition_dict={"X": 10, "Y": 0, "Z": 0, "W": 0})
+        return Model(species=species, reactions=[(["X"], ["Y"], "massaction", {"k": "k1"}), (["Y"], ["Z"], "general", {"rate": "k2*cnd*Y"})],
                      parameters=[("k1", 0.7), ("k2", 0.3), ("cnd", 1.0)], initial_condition_dict={"X": 10, "Y": 0, "Z": 0})
     frames, ics = [], []
     for n in range(N):
@@ -29,9 +37,16 @@ def replay(spec):
         full = {"X": 10.0 + n, "Y": 2.0 + n, "Z": 1.0 + n}
         ics.append({k_: full[k_] for k_ in (("X", "Z"), ("Y",), ("Z",), ("X", "Y", "Z"))[n % 4]})
     single = spec.get("single") and N == 1
+    cond = spec.get("cond", "none")
+    cnds = [1.0 + 0.5 * n for n in range(N)] if cond == "list" else [1.7] * N if cond == "dict" else [1.0] * N
+    kw = {}
+    if cond == "list":
+        kw["parameter_conditions"] = [{"cnd": v_} for v_ in cnds]
+    elif cond == "dict":
+        kw["parameter_conditions"] = {"cnd": 1.7}
     setup = InferenceSetup(Model=mk(), exp_data=(frames[0] if single else frames), measurements=list(meas), time_column="time",
                            params_to_estimate=["k1"], prior={"k1": ["uniform", 0, 10]},
-                           initial_conditions=(ics[0] if single else ics), norm_order=p, sim_type="deterministic")
+                           initial_conditions=(ics[0] if single else ics), norm_order=p, sim_type="deterministic", **kw)
     problems = []
     LL = np.asarray(setup.LL_data)
     want = np.array([[[frames[n][meas[m]].iloc[t] for m in range(Mm)] for t in range(T)] for n in range(N)], dtype=float)
@@ -43,7 +58,7 @@ def replay(spec):
     for n in range(N):
         M = mk()
         M.set_species(ics[n])
-        M.set_params({"k1": theta})
+        M.set_params({"k1": theta, "cnd": cnds[n]})
         df = py_simulate_model(frames[n]["time"].to_numpy(), Model=M)
         for m in meas:
             tot += np.sum(np.abs(frames[n][m].to_numpy() - df[m].to_numpy()) ** p)
